@@ -232,7 +232,7 @@ package regexp2
 //@   ensures[match-rtl] err == nil && m != nil && r.code.RightToLeft ==> exists q int :: 0 <= q && q <= ScanFrom(true, textstart, previousMatchLength) &&
 //@              Att(r.code, rt, textstart, q) && (forall p int :: q < p && p <= ScanFrom(true, textstart, previousMatchLength) ==> !Att(r.code, rt, textstart, p)) &&
 //@              MatchStart(m, quick) + MatchLen(m, quick) == q && MatchLen(m, quick) >= 0 && 0 <= MatchStart(m, quick) && m.textpos == MatchStart(m, quick)
-//@   ensures[match-fields] err == nil && m != nil ==> m.textstart == textstart && m.text == textInfo
+//@   ensures[match-fields] err == nil && m != nil ==> m.textstart == textstart && m.text == textInfo && m.RuneIndex == MatchStart(m, quick) && m.RuneLength == MatchLen(m, quick)
 //@   ensures[errnil] err != nil ==> m == nil
 //@   loop 0:
 //@     invariant r.Runtext == rt && r.Runtextstart == textstart && r.Runtextend == len(rt) && r.code == old(r.code) && r.re == old(r.re)
@@ -561,3 +561,33 @@ package regexp2
 //@             len(m.otherGroups[k].Captures) == m.matchcount[k+1] && m.otherGroups[k].text == m.text &&
 //@             (m.matchcount[k+1] > 0 ==> m.otherGroups[k].RuneIndex == m.matches[k+1][2*m.matchcount[k+1]-2] && m.otherGroups[k].RuneLength == m.matches[k+1][2*m.matchcount[k+1]-1])
 //@     decreases len(m.otherGroups) - i
+
+// ---------------------------------------------------------------------------------------------
+// C07: find-all loop (regexp.go). Termination for n = -1, truncation to n, the adjacency cursor.
+// ---------------------------------------------------------------------------------------------
+
+// index conversion callback: pure
+//@ funcspec MakeIndexSpec(runeIndex int, runeLength int) (s int, e int)
+//@   pure
+
+//@ func (re *Regexp) findAllRunesIndex(runner *Runner, input []rune, startAt int, n int, makeIndex func(runeIndex, runeLength int) (int, int)) (out [][]int, err error)
+//@   props C07 C02
+//@   call makeIndex: spec MakeIndexSpec
+//@   callassume scan: FactsHold(re) && (r.code == re.code || r.code == re.quickCode) ==> FinderFacts(r.code, rt, textstart)
+//@   requires RegexpWF(re) && RegexpFacts(re) && makeIndex != nil
+//@   requires runner != nil && runner.re == re && (runner.code == re.code || runner.code == re.quickCode) && runner.code != nil
+//@   requires RunnerAlloc(runner) && (runner.runmatch != nil ==> MatchWF(runner.runmatch))
+//@   requires 0 <= startAt && startAt <= len(input)
+//@   modifies runner.*, objs(Match), elems(int), elems([]int)
+//@   ensures[errnil]   err != nil ==> out == nil
+//@   ensures[truncate] err == nil && n > 0 ==> len(out) <= n
+//@   ensures[runner]   runner.re == re && runner.code == old(runner.code) && RunnerAlloc(runner)
+//@   loop 0:
+//@     invariant runner.re == re && runner.code == old(runner.code) && RunnerAlloc(runner)
+//@     assume runner.runmatch != nil ==> MatchWF(runner.runmatch)
+//@     invariant 0 <= startAt && startAt <= len(input) && -1 <= previousMatchLength
+//@     invariant[count]  old(n) > 0 ==> 0 <= n && n + len(out) == old(n)
+//@     invariant[cursor] !runner.code.RightToLeft ==> (prevEnd == -1 || prevEnd == startAt)
+//@     invariant old(n) <= 0 ==> n == old(n)
+//@     invariant len(flat) == 2*len(out)
+//@     decreases ite(runner.code.RightToLeft, 2*startAt, 2*(len(input) - startAt)) + ite(previousMatchLength == 0, 0, 1)
